@@ -415,6 +415,72 @@ theorem verifyDeposit_ok_iff (K : Bytes → Bytes) (vp : Bytes → Bytes → Lis
                       have : prm = param := Option.some.inj this
                       subst this; rfl
 
+/-! ## The quorum router's proof check -/
+
+theorem verifyFromQuorumTx_ok_iff (K : Bytes → Bytes) (vp : Bytes → Bytes → List Bytes → VpRes) (rt ccmc : Bytes)
+    (proof : Option EthProof) (extra : Bytes) :
+    verifyFromQuorumTx K vp rt ccmc proof extra = .ok () ↔
+      ∃ p v, proof = some p ∧ MerkleFacts K vp p rt ccmc (.val v) ∧
+        ∃ w, rlpDecodeString v = some w ∧ List.replicate (32 - w.length) (0 : UInt8) ++ w = K extra := by
+  unfold verifyFromQuorumTx
+  cases proof with
+  | none =>
+    constructor
+    · intro h; cases h
+    · rintro ⟨_, _, h1, _⟩; cases h1
+  | some p =>
+    simp only []
+    by_cases hlen : p.storageProofs.length ≠ 1
+    · rw [if_pos hlen]
+      constructor
+      · intro h; cases h
+      · rintro ⟨p', v, h1, h2, _⟩
+        have : p = p' := Option.some.inj h1
+        subst this
+        obtain ⟨sp, hsp, _⟩ := h2.storage
+        rw [hsp] at hlen; exact absurd rfl hlen
+    · rw [if_neg hlen]
+      cases hm : verifyMerkleProof K vp p rt ccmc with
+      | error e =>
+        constructor
+        · intro h; cases h
+        · rintro ⟨p', v, h1, h2, _⟩
+          have : p = p' := Option.some.inj h1
+          subst this
+          rw [(verifyMerkleProof_ok_iff K vp p rt ccmc (.val v)).2 h2] at hm; cases hm
+      | ok res =>
+        have hfacts := (verifyMerkleProof_ok_iff K vp p rt ccmc res).1 hm
+        have resval : ∀ p' v, some p = some p' → MerkleFacts K vp p' rt ccmc (.val v) → res = .val v := by
+          intro p' v h1 h2
+          have : p = p' := Option.some.inj h1
+          subst this
+          have := (verifyMerkleProof_ok_iff K vp p rt ccmc (.val v)).2 h2
+          rw [hm] at this; cases this; rfl
+        cases res with
+        | err =>
+          constructor
+          · intro h; cases h
+          · rintro ⟨p', v, h1, h2, _⟩; have := resval p' v h1 h2; cases this
+        | absent =>
+          constructor
+          · intro h; cases h
+          · rintro ⟨p', v, h1, h2, _⟩; have := resval p' v h1 h2; cases this
+        | val v =>
+          simp only []
+          cases hcp : checkProofResult v (K extra) with
+          | false =>
+            simp only [Bool.not_false, if_true]
+            constructor
+            · intro h; cases h
+            · rintro ⟨p', v', h1, h2, h3⟩
+              have := resval p' v' h1 h2
+              have : v = v' := by cases this; rfl
+              subst this
+              rw [(checkProofResult_iff v (K extra)).2 h3] at hcp; cases hcp
+          | true =>
+            simp only [Bool.not_true, Bool.false_eq_true, if_false]
+            exact ⟨fun _ => ⟨p, v, rfl, hfacts, (checkProofResult_iff v (K extra)).1 hcp⟩, fun _ => trivial⟩
+
 /-! ## Confirmation arithmetic -/
 
 theorem notConfirmed_false_iff (bestNumber blocksToWait height : Nat) :
